@@ -5,6 +5,7 @@ extern crate tsrun;
 
 mod gcmiri;
 mod gcreplay;
+mod lifecycle;
 mod modules;
 mod orders;
 mod gctrace;
@@ -22,6 +23,7 @@ fn main() {
         "pathnorm" => pathnorm::main(&rest),
         "gcreplay" => gcreplay::main(&rest),
         "gctrace" => gctrace::main(&rest),
+        "lifecycle" => lifecycle::main(&rest),
         "prog" => prog::main(&rest),
         "modules" => modules::main(&rest),
         "orders" => orders::main(&rest),
